@@ -112,12 +112,29 @@ def _ac(flatten, pats, t):
     return False
 
 
+def _flat(pats, attr):
+    out = []
+    for p in pats:
+        sub = getattr(p, attr, None)
+        if sub:
+            out += list(sub)
+        else:
+            out.append(p)
+    return out
+
+
 def prod(*pats):
-    return Pat(lambda t: _ac(flatten_product, pats, t), ' * '.join(map(repr, pats)))
+    pats = _flat(pats, 'factors')
+    p = Pat(lambda t: _ac(flatten_product, pats, t), ' * '.join(map(repr, pats)))
+    p.factors = pats
+    return p
 
 
 def summ(*pats):
-    return Pat(lambda t: _ac(flatten_sum, pats, t), ' + '.join(map(repr, pats)))
+    pats = _flat(pats, 'terms')
+    p = Pat(lambda t: _ac(flatten_sum, pats, t), ' + '.join(map(repr, pats)))
+    p.terms = pats
+    return p
 
 
 def binop(op, a, b):
